@@ -1544,7 +1544,9 @@ class NumpyDocstring(GoogleDocstring):
         else:
             # Else we consider it as free form
             _desc = self.__class__(self._consume_to_next_section()).lines()
-            raise FreeFormException(lines=[_name + _type] + _desc)
+            # _name and _type are the two sides of a colon in the free form line, if it has one
+            first_line = f"{_name}: {_type}" if _name and _type else _name + _type
+            raise FreeFormException(lines=[first_line] + _desc)
 
     def _parse_see_also_section(self, section: str) -> List[str]:
         lines = self._consume_to_next_section()
